@@ -9,10 +9,14 @@ import PdfModel.Core.Out
   The source document is a graph of indirect objects. Everything in an object that is not a reference is
   its `payload` (dictionary keys, numbers, strings, stream bytes: copied verbatim by the `DeepClone`
   impls, compared by the oracle in harness/src/c20.rs); the references it holds, in the order in which
-  `deep_clone` visits them, are its `kids`. An edge is `plain` when it is followed through
-  `clone_plainref` (`Primitive::Reference`) or `clone_ref` (`Ref<T>`) — the two functions have the same
-  shape: memo, load, deep-clone, `create`, memo insert — and `rc` when it is followed through
-  `clone_rcref` (`RcRef<T>`, `MaybeRef::Indirect`), which additionally keeps the typed copy in `rcrefs`.
+  `deep_clone` visits them, are its kids. The traversal is type-directed: an edge is `prim` when it is
+  followed through `clone_plainref` (`Primitive::Reference`: the target is loaded and cloned as a
+  `Primitive`), `ref` when it is followed through `clone_ref` (`Ref<T>`: the target is loaded and cloned as
+  a `T`) — the two functions have the same shape: memo, load, deep-clone, `create`, memo insert — and `rc`
+  when it is followed through `clone_rcref` (`RcRef<T>`, `MaybeRef::Indirect`), which additionally keeps
+  the typed copy in `rcrefs`. Which references of an object are visited, in which order and through which
+  kind of edge depends on whether the object is cloned as a `Primitive` (`kidsPrim`: every reference, in
+  dictionary order) or as a typed value (`kidsTyped`: the references of the fields of `T`, in field order).
 
   Rust (after the fix: commits of this package)            model
   ----                                                      -----
@@ -23,7 +27,8 @@ import PdfModel.Core.Out
   Storage.changes   (objects created so far)                St.objs
   Updater::create(obj)  (id = refs.len(); push)             the `fresh` branch of `cloneRef`: id := st.next
   Importer::enter  (cycle ⇒ Err) … pending.pop()            `if e.tgt ∈ st.pending then .err` … `.tail`
-  clone_plainref / clone_ref                                cloneRef … ⟨.plain, r⟩
+  clone_plainref                                            cloneRef … ⟨.prim, r⟩
+  clone_ref                                                 cloneRef … ⟨.ref, r⟩
   clone_rcref                                               cloneRef … ⟨.rc, r⟩
      hit in map, typed copy in rcrefs                          `.ok n`, state unchanged
      hit in map, no typed copy (object was copied through      children walked again (all memo hits), nothing
@@ -44,7 +49,8 @@ import PdfModel.Core.Out
 namespace Import
 
 inductive Kind where
-  | plain
+  | prim
+  | ref
   | rc
 deriving DecidableEq, Repr, Inhabited
 
@@ -55,8 +61,14 @@ deriving DecidableEq, Repr, Inhabited
 
 structure Node where
   payload : Nat
-  kids : List Edge
+  kidsPrim : List Edge
+  kidsTyped : List Edge
 deriving DecidableEq, Repr, Inhabited
+
+/-- the references visited when the object is entered through an edge of kind `k` -/
+def Node.kids (n : Node) : Kind → List Edge
+  | .prim => n.kidsPrim
+  | _ => n.kidsTyped
 
 /-- the source document: object number ↦ object (`none`: free / missing object) -/
 abbrev Src := Nat → Option Node
@@ -102,7 +114,8 @@ def cloneRef : Nat → Src → Edge → St → Out Nat × St
     match st.map.lookup e.tgt with
     | some n =>
       match e.kind with
-      | .plain => (.ok n, st)
+      | .prim => (.ok n, st)
+      | .ref => (.ok n, st)
       | .rc =>
         if n ∈ st.rcrefs then (.ok n, st)
         else if e.tgt ∈ st.pending then (.err, st)
@@ -110,7 +123,7 @@ def cloneRef : Nat → Src → Edge → St → Out Nat × St
           match src e.tgt with
           | none => (.err, st)
           | some node =>
-            match mapSt (cloneRef f src) node.kids { st with pending := e.tgt :: st.pending } with
+            match mapSt (cloneRef f src) (node.kids .rc) { st with pending := e.tgt :: st.pending } with
             | (.ok _, st1) => (.ok n, { st1 with pending := st1.pending.tail, rcrefs := n :: st1.rcrefs })
             | (.err, st1) => (.err, { st1 with pending := st1.pending.tail })
             | (.panic, st1) => (.panic, { st1 with pending := st1.pending.tail })
@@ -121,7 +134,7 @@ def cloneRef : Nat → Src → Edge → St → Out Nat × St
         match src e.tgt with
         | none => (.err, st)
         | some node =>
-          match mapSt (cloneRef f src) node.kids { st with pending := e.tgt :: st.pending } with
+          match mapSt (cloneRef f src) (node.kids e.kind) { st with pending := e.tgt :: st.pending } with
           | (.ok ks, st1) =>
             (.ok st1.next,
               { map := (e.tgt, st1.next) :: st1.map,
@@ -172,7 +185,12 @@ inductive OpM where
   | other (tag : Nat)                -- anything else: cloned verbatim
 deriving DecidableEq, Repr, Inhabited
 
-/-- a resource entry is a direct value: payload + references -/
+/-- a resource entry (a direct value: payload + the references `deep_clone` visits in it) -/
+structure Entry where
+  payload : Nat
+  kids : List Edge
+deriving DecidableEq, Repr, Inhabited
+
 abbrev ResTable (α : Type) := List ((RKind × Nat) × α)
 
 def resGet {α : Type} (t : ResTable α) (k : RKind) (name : Nat) : Option α :=
@@ -180,7 +198,7 @@ def resGet {α : Type} (t : ResTable α) (k : RKind) (name : Nat) : Option α :=
 
 structure PageM where
   ops : List OpM
-  res : ResTable Node
+  res : ResTable Entry
   /-- references of `metadata`, `lgi`, `vp`, `other`, in that order -/
   rest : List Edge
 deriving Repr, Inhabited
@@ -191,7 +209,7 @@ structure PageOut where
 deriving Repr, Inhabited
 
 /-- `deep_clone_op`: the new resource table is threaded through; operations themselves keep their names -/
-def cloneOp (f : Nat) (src : Src) (old : ResTable Node) (op : OpM) (s : ResTable (Nat × List Nat) × St) :
+def cloneOp (f : Nat) (src : Src) (old : ResTable Entry) (op : OpM) (s : ResTable (Nat × List Nat) × St) :
     Out Unit × (ResTable (Nat × List Nat) × St) :=
   match op with
   | .use k name =>
@@ -240,13 +258,14 @@ def cloneRef : Nat → Src → Edge → St → Out Nat × St
     match st.map.lookup e.tgt with
     | some n =>
       match e.kind with
-      | .plain => (.ok n, st)
+      | .prim => (.ok n, st)
+      | .ref => (.ok n, st)
       | .rc => if n ∈ st.rcrefs then (.ok n, st) else (.panic, st)
     | none =>
       match src e.tgt with
       | none => (.err, st)
       | some node =>
-        match mapSt (cloneRef f src) node.kids st with
+        match mapSt (cloneRef f src) (node.kids e.kind) st with
         | (.ok ks, st1) =>
           (.ok st1.next,
             { map := (e.tgt, st1.next) :: st1.map,
